@@ -80,3 +80,14 @@ Definition detok_strings (c : cfg) (ss : list string) : string :=
   | Err e => "!" ++ show_err e
   | Ok ts => show_res show_msgss (detokenise c ts) ++ "#" ++ show_info (get_info c false ts) ++ "#" ++ show_info (get_info c true ts)
   end.
+
+(* ---- MIDI *)
+From Model Require Import Midi.
+Open Scope string_scope.
+Definition show_mkind (k : mkind) : string :=
+  match k with MOn => "on" | MOff => "off" | MTs => "ts" | MKs => "ks" | MCc => "cc" | MPc => "pc" | MOther => "x" end.
+Definition show_mev (e : mev) : string :=
+  sjoin ":" [show_mkind (e_kind e); show_Z (e_chan e); show_Z (e_a e); show_Z (e_b e); e_key e; show_Z (e_dt e)].
+Definition show_mevs (l : list mev) : string := sjoin ";" (map show_mev l).
+Definition show_seqs (r : result (list seq)) : string := show_res (fun l => sjoin "#" (map show_seq l)) r.
+Definition ev (k : mkind) (c a b : Z) (key : string) (dt : Z) : mev := mkev k c a b key dt.
